@@ -81,8 +81,8 @@ def drive(script, timeout_s, default_s, inject=None, short=False, seed=0, conn_s
                 except Exception as x:  # noqa
                     flush_log(n=a['n'])
                     tr.append(dict(op='raised', call='bulk_read', cls=type(x).__name__, expected='UsbReadFailedError', closed=closed))
-            elif op == 'write':
-                data = bytes(rng.randrange(256) for _ in range(a['m']))
+            elif op in ('write', 'hw'):
+                data = bytes(rng.randrange(256) for _ in range(a['m'] if op == 'write' else a['n']))
                 try:
                     k = t.bulk_write(data, timeout_s)
                     acc = len(B.out)
